@@ -300,3 +300,189 @@ pub fn header_layout() -> (usize, usize) {
     let layout = alloc::alloc::Layout::new::<CcBox<()>>();
     (layout.size(), layout.align())
 }
+
+/// Operations of [`lists_run`]. `usize` operands are indexes of the boxes allocated by [`lists_run`], `bool` operands
+/// select one of its two `LinkedList`s.
+#[derive(Copy, Clone, Debug, PartialEq, Eq)]
+pub enum ListsOp {
+    /// `LinkedList::add`
+    ListAdd(bool, usize),
+    /// `LinkedList::remove`
+    ListRemove(bool, usize),
+    /// `LinkedList::remove_first`
+    ListRemoveFirst(bool),
+    /// Drops the `LinkedList` and replaces it with a new one
+    ListDrop(bool),
+    /// `PossibleCycles::add`
+    PcAdd(usize),
+    /// `PossibleCycles::remove`
+    PcRemove(usize),
+    /// `PossibleCycles::remove_first`
+    PcRemoveFirst,
+    /// `PossibleCycles::mark_self_and_append` with the given mark (0..=3), consuming the `LinkedList` (no-op without the `finalization` feature)
+    PcMarkSelfAndAppend(bool, u8),
+    /// `PossibleCycles::swap_list` with the `LinkedList` (no-op without the `finalization` feature)
+    PcSwapList(bool),
+    /// `LinkedQueue::add`
+    QueueAdd(usize),
+    /// `LinkedQueue::poll`
+    QueuePoll,
+    /// Drops the `LinkedQueue` and replaces it with a new one
+    QueueDrop,
+    /// `CounterMarker::mark` with the given mark (0..=3)
+    Mark(usize, u8),
+    /// `CounterMarker::increment_tracing_counter`
+    IncrementTracingCounter(usize),
+}
+
+/// What [`lists_run`] observes after an operation. Boxes are identified by their index.
+#[derive(Clone, Debug, Default, PartialEq, Eq)]
+pub struct ListsView {
+    /// The elements the iterators of the two `LinkedList`s yield.
+    pub lists: [alloc::vec::Vec<usize>; 2],
+    /// The elements the iterator of the `PossibleCycles` yields.
+    pub possible_cycles: alloc::vec::Vec<usize>,
+    /// `PossibleCycles::size`
+    pub possible_cycles_size: usize,
+    /// The elements the iterator of the `LinkedQueue` yields.
+    pub queue: alloc::vec::Vec<usize>,
+    /// `is_empty` of the two `LinkedList`s, the `PossibleCycles` and the `LinkedQueue`.
+    pub is_empty: [bool; 4],
+    /// The `next` and `prev` links of every box.
+    pub links: alloc::vec::Vec<(Option<usize>, Option<usize>)>,
+    /// The mark of every box (0 = not marked, 1 = possible cycles, 2 = in list, 3 = in queue).
+    pub marks: alloc::vec::Vec<u8>,
+    /// The tracing counter of every box.
+    pub tracing_counters: alloc::vec::Vec<u16>,
+    /// What `remove_first` / `poll` returned, if that was the operation.
+    pub returned: Option<Option<usize>>,
+}
+
+/// Allocates `n` boxes and runs `ops` on two `LinkedList`s, a `PossibleCycles` and a `LinkedQueue` of its own, returning what
+/// can be observed after each operation. Everything is released before returning.
+///
+/// An operation whose precondition doesn't hold is skipped: a box is added only while no iterator of the four structures
+/// yields it, and removed only from a structure whose iterator yields it; indexes must be less than `n` and marks less than 4.
+pub fn lists_run(n: usize, ops: &[ListsOp]) -> alloc::vec::Vec<ListsView> {
+    unsafe { lists_run_inner(n, ops) }
+}
+
+unsafe fn lists_run_inner(n: usize, ops: &[ListsOp]) -> alloc::vec::Vec<ListsView> {
+    use alloc::vec::Vec;
+    use crate::lists::{LinkedList, LinkedQueue, PossibleCycles};
+    use crate::state::state;
+    use crate::utils::cc_dealloc;
+
+    let boxes: Vec<NonNull<CcBox<()>>> = (0..n)
+        .map(|_| {
+            let ptr = state(|state| CcBox::new((), state));
+            ptr.as_ref().counter_marker().reset_tracing_counter();
+            ptr
+        })
+        .collect();
+    let index = |ptr: NonNull<CcBox<()>>| boxes.iter().position(|&b| b == ptr).unwrap_or(usize::MAX);
+    let to_mark = |m: u8| match m {
+        0 => Mark::NonMarked,
+        1 => Mark::PossibleCycles,
+        2 => Mark::InList,
+        _ => Mark::InQueue,
+    };
+
+    let mut lists = [LinkedList::new(), LinkedList::new()];
+    let pc = PossibleCycles::new();
+    let mut queue = LinkedQueue::new();
+    let mut views = Vec::with_capacity(ops.len());
+
+    for &op in ops {
+        let mut returned = None;
+        let is_free = |x: usize| {
+            x < n
+                && !lists[0].iter().take(n + 1).any(|e| e == boxes[x])
+                && !lists[1].iter().take(n + 1).any(|e| e == boxes[x])
+                && !(&pc).into_iter().take(n + 1).any(|e| e == boxes[x])
+                && !(&queue).into_iter().take(n + 1).any(|e| e == boxes[x])
+        };
+        let allowed = match op {
+            ListsOp::ListAdd(_, x) | ListsOp::PcAdd(x) | ListsOp::QueueAdd(x) => is_free(x),
+            ListsOp::ListRemove(i, x) => x < n && lists[i as usize].iter().take(n + 1).any(|e| e == boxes[x]),
+            ListsOp::PcRemove(x) => x < n && (&pc).into_iter().take(n + 1).any(|e| e == boxes[x]),
+            ListsOp::PcMarkSelfAndAppend(_, m) => m < 4,
+            ListsOp::Mark(x, m) => x < n && m < 4,
+            ListsOp::IncrementTracingCounter(x) => x < n,
+            _ => true,
+        };
+        match op {
+            _ if !allowed => {},
+            ListsOp::ListAdd(i, x) => lists[i as usize].add(boxes[x]),
+            ListsOp::ListRemove(i, x) => lists[i as usize].remove(boxes[x]),
+            ListsOp::ListRemoveFirst(i) => returned = Some(lists[i as usize].remove_first().map(index)),
+            ListsOp::ListDrop(i) => drop(core::mem::replace(&mut lists[i as usize], LinkedList::new())),
+            ListsOp::PcAdd(x) => pc.add(boxes[x]),
+            ListsOp::PcRemove(x) => pc.remove(boxes[x]),
+            ListsOp::PcRemoveFirst => returned = Some(pc.remove_first().map(index)),
+            #[cfg(feature = "finalization")]
+            ListsOp::PcMarkSelfAndAppend(i, m) => {
+                let to_append = core::mem::replace(&mut lists[i as usize], LinkedList::new());
+                let size = to_append.iter().take(n + 1).count();
+                pc.mark_self_and_append(to_mark(m), to_append, size);
+            },
+            #[cfg(feature = "finalization")]
+            ListsOp::PcSwapList(i) => {
+                let size = lists[i as usize].iter().take(n + 1).count();
+                pc.swap_list(&mut lists[i as usize], size);
+            },
+            #[cfg(not(feature = "finalization"))]
+            ListsOp::PcMarkSelfAndAppend(..) | ListsOp::PcSwapList(..) => {},
+            ListsOp::QueueAdd(x) => queue.add(boxes[x]),
+            ListsOp::QueuePoll => returned = Some(queue.poll().map(index)),
+            ListsOp::QueueDrop => drop(core::mem::replace(&mut queue, LinkedQueue::new())),
+            ListsOp::Mark(x, m) => boxes[x].as_ref().counter_marker().mark(to_mark(m)),
+            ListsOp::IncrementTracingCounter(x) => {
+                let _ = boxes[x].as_ref().counter_marker().increment_tracing_counter();
+            },
+        }
+
+        views.push(ListsView {
+            lists: [
+                lists[0].iter().take(n + 1).map(index).collect(),
+                lists[1].iter().take(n + 1).map(index).collect(),
+            ],
+            possible_cycles: (&pc).into_iter().take(n + 1).map(index).collect(),
+            possible_cycles_size: pc.size(),
+            queue: (&queue).into_iter().take(n + 1).map(index).collect(),
+            is_empty: [lists[0].is_empty(), lists[1].is_empty(), pc.is_empty(), queue.is_empty()],
+            links: boxes
+                .iter()
+                .map(|b| ((*b.as_ref().get_next()).map(index), (*b.as_ref().get_prev()).map(index)))
+                .collect(),
+            marks: boxes
+                .iter()
+                .map(|b| {
+                    let cm = b.as_ref().counter_marker();
+                    if cm.is_in_possible_cycles() {
+                        1
+                    } else if cm.is_in_list() {
+                        2
+                    } else if cm._is_in_queue() {
+                        3
+                    } else {
+                        0
+                    }
+                })
+                .collect(),
+            tracing_counters: boxes.iter().map(|b| b.as_ref().counter_marker().tracing_counter()).collect(),
+            returned,
+        });
+    }
+
+    drop(lists);
+    drop(pc);
+    drop(queue);
+    for ptr in boxes {
+        // A box left with a link (the preconditions were violated) is leaked rather than released
+        if (*ptr.as_ref().get_next()).is_none() && (*ptr.as_ref().get_prev()).is_none() {
+            state(|state| cc_dealloc(ptr, alloc::alloc::Layout::new::<CcBox<()>>(), state));
+        }
+    }
+    views
+}
